@@ -1349,6 +1349,22 @@ func (a *fnAnalysis) load(st *rstate, x *ssa.UnOp) {
 		if intT {
 			st.iv[x] = topVal()
 		}
+	case *ssa.Alloc:
+		// a local variable that lives in a cell (captured by a closure) and is assigned once
+		if intT {
+			if v := soleStoredValue(addr); v != nil {
+				if r := a.get(st, v); !r.bot {
+					st.iv[x] = r
+					return
+				}
+			}
+			st.iv[x] = topVal()
+		}
+	case *ssa.FreeVar:
+		// a variable of the enclosing function, captured by reference and assigned once there
+		if intT {
+			st.iv[x] = a.capturedRange(addr)
+		}
 	case *ssa.Global:
 		if intT {
 			if h, ok := a.e.tabHull[gname(addr)]; ok && !a.e.mutable[gname(addr)] {
@@ -1624,6 +1640,22 @@ func (a *fnAnalysis) call(st *rstate, x *ssa.Call) {
 			}
 		}
 		a.res.retsUsed[callee] = true
+		// what the callee's normal return implies about its arguments (a validation helper that panics otherwise)
+		for _, rf := range returnFacts(callee) {
+			arg := func(v ssa.Value) ssa.Value {
+				if p, ok := v.(*ssa.Parameter); ok {
+					if i := paramIndex(callee, p); i >= 0 && i < len(common.Args) {
+						return common.Args[i]
+					}
+					return nil
+				}
+				return v // a constant
+			}
+			xa, ya := arg(rf.x), arg(rf.y)
+			if xa != nil && ya != nil {
+				a.refineRel(st, xa, rf.op, ya)
+			}
+		}
 		if isIntType(x.Type()) {
 			// a bound method value (x.M used as a function) is the method itself
 			cname := strings.TrimSuffix(fname(callee), "$bound")
@@ -2014,6 +2046,15 @@ func (a *fnAnalysis) refine(st *rstate, cond ssa.Value, truth bool) bool {
 		if !truth {
 			op = negCmp(op)
 		}
+		return a.refineRel(st, x.X, op, x.Y)
+	}
+	return true
+}
+
+// refineRel narrows the ranges of x and y under the relation x op y.
+func (a *fnAnalysis) refineRel(st *rstate, xv ssa.Value, op token.Token, yv ssa.Value) bool {
+	x := struct{ X, Y ssa.Value }{xv, yv}
+	{
 		if isIntType(x.X.Type()) && isIntType(x.Y.Type()) {
 			l, r := a.get(st, x.X), a.get(st, x.Y)
 			if l.bot || r.bot {
@@ -2376,4 +2417,141 @@ func min64(a, b int64) int64 {
 		return a
 	}
 	return b
+}
+
+
+// relFact: x op y holds between parameters and constants of a function.
+type relFact struct {
+	x, y ssa.Value
+	op   token.Token
+}
+
+var returnFactsCache = map[*ssa.Function][]relFact{}
+
+// returnFacts: the integer comparisons between parameters and constants that hold whenever fn returns
+// normally (they dominate every return: the other side of each panics). For `func check(v, lo, hi int) {
+// if v < lo || v > hi { panic(...) } }` these are v >= lo and v <= hi.
+func returnFacts(fn *ssa.Function) []relFact {
+	if out, ok := returnFactsCache[fn]; ok {
+		return out
+	}
+	returnFactsCache[fn] = nil
+	if fn.Blocks == nil {
+		return nil
+	}
+	hasPanic := false
+	for _, b := range fn.Blocks {
+		if _, ok := b.Instrs[len(b.Instrs)-1].(*ssa.Panic); ok {
+			hasPanic = true
+		}
+	}
+	if !hasPanic {
+		return nil
+	}
+	type key struct {
+		cond  ssa.Value
+		truth bool
+	}
+	var common map[key]bool
+	for _, b := range fn.Blocks {
+		if _, ok := b.Instrs[len(b.Instrs)-1].(*ssa.Return); !ok {
+			continue
+		}
+		set := map[key]bool{}
+		for _, f := range expandFacts(nil, domFacts(&evalFrame{fn: fn}, b), 3) {
+			set[key{f.cond, f.truth}] = true
+		}
+		if common == nil {
+			common = set
+			continue
+		}
+		for k := range common {
+			if !set[k] {
+				delete(common, k)
+			}
+		}
+	}
+	var out []relFact
+	simple := func(v ssa.Value) bool {
+		switch x := v.(type) {
+		case *ssa.Parameter:
+			return isIntType(x.Type())
+		case *ssa.Const:
+			_, ok := constInt(x)
+			return ok
+		}
+		return false
+	}
+	for _, b := range fn.Blocks { // deterministic order
+		for _, ins := range b.Instrs {
+			bo, ok := ins.(*ssa.BinOp)
+			if !ok || !simple(bo.X) || !simple(bo.Y) {
+				continue
+			}
+			switch bo.Op {
+			case token.LSS, token.LEQ, token.GTR, token.GEQ, token.EQL, token.NEQ:
+			default:
+				continue
+			}
+			if common[key{bo, true}] {
+				out = append(out, relFact{bo.X, bo.Y, bo.Op})
+			}
+			if common[key{bo, false}] {
+				out = append(out, relFact{bo.X, bo.Y, negCmp(bo.Op)})
+			}
+		}
+	}
+	returnFactsCache[fn] = out
+	return out
+}
+
+
+// capturedRange: the range of a variable a closure captured, when the enclosing function assigns it exactly once
+// with a constant, the length of a literal table, or a value whose range that function's analysis knows.
+func (a *fnAnalysis) capturedRange(fv *ssa.FreeVar) aval {
+	parent := a.fn.Parent()
+	if parent == nil {
+		return topVal()
+	}
+	idx := -1
+	for i, f := range a.fn.FreeVars {
+		if f == fv {
+			idx = i
+		}
+	}
+	for _, b := range parent.Blocks {
+		for _, ins := range b.Instrs {
+			mc, ok := ins.(*ssa.MakeClosure)
+			if !ok || mc.Fn != ssa.Value(a.fn) || idx < 0 || idx >= len(mc.Bindings) {
+				continue
+			}
+			cell, ok := mc.Bindings[idx].(*ssa.Alloc)
+			if !ok {
+				return topVal()
+			}
+			v := soleStoredValue(cell)
+			if v == nil {
+				return topVal()
+			}
+			if k, ok := constInt(v); ok {
+				return constVal(k)
+			}
+			if call, ok := v.(*ssa.Call); ok {
+				if bi, isB := call.Common().Value.(*ssa.Builtin); isB && bi.Name() == "len" && len(call.Common().Args) == 1 {
+					if ld, ok := call.Common().Args[0].(*ssa.UnOp); ok && ld.Op == token.MUL {
+						if g, ok := ld.X.(*ssa.Global); ok && !a.e.mutable[gname(g)] {
+							if n, ok := a.e.tabLen[gname(g)]; ok {
+								return constVal(n)
+							}
+						}
+					}
+				}
+			}
+			if r := a.e.obsValue(parent, v); !r.bot {
+				return r
+			}
+			return topVal()
+		}
+	}
+	return topVal()
 }
